@@ -736,11 +736,19 @@ func rulePXGroupRender(c *Ctx) []Obligation {
 				F = F.with(nullT, v)
 			}
 		}
-		if prev == nil {
-			// the look-up of the preceding item is inlined: the value whose dynamic type is examined
-			if x, okPos, why := c.inlinedPrevious(F); x != "" {
+		noPrev := false
+		if prev == nil && F.Has(`eq("block",recv.name)`, true) && F.Has("eq(nil,p2)", false) {
+			// the look-up of the preceding item is inlined: locate it from the facts
+			x, kind, why := c.inlinedPrevious(F)
+			switch kind {
+			case "item":
 				prevT = x
-				t.note("a block looks up what precedes itself in the enclosing statement", okPos, "path %s: %s", traceOf(p), why)
+				t.note("a block looks up what precedes itself in the enclosing statement", true, "")
+			case "none":
+				noPrev = true
+				t.note("a block looks up what precedes itself in the enclosing statement", true, "")
+			default:
+				t.note("a block looks up what precedes itself in the enclosing statement", false, "path %s: %s (facts %s)", traceOf(p), why, F)
 			}
 		}
 		if itemsEv == nil {
@@ -752,7 +760,7 @@ func rulePXGroupRender(c *Ctx) []Obligation {
 		t.note("items are rendered exactly once", nItems == 1, "path %s renders the items %d times", traceOf(p), nItems)
 		// brace-less form?
 		isA, isN := false, false
-		if F.Has(`eq("block",recv.name)`, false) || F.Has("eq(nil,p2)", true) {
+		if F.Has(`eq("block",recv.name)`, false) || F.Has("eq(nil,p2)", true) || noPrev {
 			isN = true
 		} else if prevT != "" && F.Has(`eq("block",recv.name)`, true) && F.Has("eq(nil,p2)", false) {
 			isGrp, grpNil := fact3(F, "is<*jen.Group>("+prevT+")"), fact3(F, "eq(assert<*jen.Group>("+prevT+"),nil)")
@@ -3011,14 +3019,17 @@ func rulePXRegister(c *Ctx) []Obligation {
 		}
 		t.note("a name stored without alias is the raw hint / standard-library name; guessed or modified (prefixed, numbered) names are aliases", okCoh, "path %s stores the %s name %s with alias flag %s not known to be true: the import line would omit the alias although the qualifier is not the package's real name", traceOf(p), class, name, alias)
 		// source of the candidate: hint first, then the standard-library table, then a guess
+		// "no hint" / "no table entry": the looked-up name is known empty, or the key is known absent
+		noHint := F.Has("empty("+hintName+")", true) || F.Has("has("+hints+",p0)", false)
+		noStd := F.Has("empty("+stdTerm+")", true) || F.Has("has(global:"+stdName+",p0)", false)
 		switch base {
 		case hintName:
 			t.note("a hint is used only if one was given", F.Has("empty("+hintName+")", false), "path %s", traceOf(p))
 		case stdTerm:
-			t.note("the standard-library table is used only without a hint", F.Has("empty("+hintName+")", true) && F.Has("empty("+stdTerm+")", false), "path %s (facts %s)", traceOf(p), F)
+			t.note("the standard-library table is used only without a hint", noHint && F.Has("empty("+stdTerm+")", false), "path %s (facts %s)", traceOf(p), F)
 		default:
 			if class != "other" {
-				t.note("a name is guessed only without a hint and without a table entry", F.Has("empty("+hintName+")", true) && F.Has("empty("+stdTerm+")", true), "path %s (facts %s)", traceOf(p), F)
+				t.note("a name is guessed only without a hint and without a table entry", noHint && noStd, "path %s (facts %s)", traceOf(p), F)
 			}
 		}
 		// modifications never touch "."
@@ -3195,7 +3206,9 @@ func rulePXLocalDot(c *Ctx) []Obligation {
 		t.require("the dot-import test is exactly hints[path] = {\".\", alias}")
 		t.flush()
 	} else {
-		o.undecided("(*jen.File).isDotImport", "anchor", token.NoPos, "anchor lost")
+		// inlined into its user: P-ISNULL judges "a package token is null exactly for a dot-imported
+		// path or the File's own path" on token.isNull's own paths
+		o.info("(*jen.File).isDotImport", "no separate dot-import predicate", token.NoPos, "inlined at its use; judged by P-ISNULL")
 	}
 	return o.list
 }
@@ -3479,39 +3492,42 @@ func (c *Ctx) itemsAllNull3(p *PXPath, F Facts, list string) (val, known bool) {
 	return false, false
 }
 
-// inlinedPrevious: with no separate "previous item" helper, the value whose dynamic type the
-// brace-less test examines, and whether the facts establish that it is the item directly before
-// the group in the enclosing statement (p2): p2[k] with p2[k+1] == recv and no earlier match, or nil
-// when the group is the first item / not found.
-func (c *Ctx) inlinedPrevious(F Facts) (x string, ok bool, why string) {
-	for atom := range F {
-		for _, pre := range []string{"is<*jen.Group>(", "is<jen.token>("} {
-			if strings.HasPrefix(atom, pre) && strings.HasSuffix(atom, ")") {
-				x = atom[len(pre) : len(atom)-1]
+// inlinedPrevious: with no separate "previous item" helper, find from the facts the first item of the
+// enclosing statement (p2) that is known to be the group itself — compared as an interface value or,
+// after a type test, as a *Group — with every earlier item known not to be; the value whose dynamic
+// type the brace-less test may examine is then the item directly before it. kind is "item" (x is
+// that item), "none" (the group is first, or known absent from the statement examined) or "" (the
+// facts do not say).
+func (c *Ctx) inlinedPrevious(F Facts) (x string, kind string, why string) {
+	match3 := func(j int) [2]bool {
+		it := fmt.Sprintf("p2[%d]", j)
+		if v := fact3(F, eqAtom(it, "recv")); v[1] {
+			return v
+		}
+		isG := fact3(F, "is<*jen.Group>("+it+")")
+		if isG[1] && !isG[0] {
+			return [2]bool{false, true}
+		}
+		if v := fact3(F, eqAtom("assert<*jen.Group>("+it+")", "recv")); v[1] && (isG[1] && isG[0] || !v[0]) {
+			return v
+		}
+		return [2]bool{}
+	}
+	for j := 0; j < 8; j++ {
+		m := match3(j)
+		if !m[1] {
+			// is the statement exhausted here?
+			if F.Has(fmt.Sprintf("lt(%d,len(p2))", j), false) || (j == 0 && (F.Has("empty(p2)", true) || F.Has("eq(nil,p2)", true))) {
+				return "", "none", "the group does not occur among the items examined"
 			}
+			return "", "", fmt.Sprintf("p2[%d] is not known to be, or not to be, the group itself", j)
+		}
+		if m[0] {
+			if j == 0 {
+				return "", "none", "the group is the first item"
+			}
+			return fmt.Sprintf("p2[%d]", j-1), "item", "the item directly before the group's first occurrence"
 		}
 	}
-	if x == "" {
-		return "", false, ""
-	}
-	var k int
-	if x == "nil" {
-		// nothing precedes: the group is first, or is not in the statement at all
-		if F.Has(eqAtom("p2[0]", "recv"), true) {
-			return x, true, "the group is the first item"
-		}
-		return x, true, "no preceding item on this path"
-	}
-	if _, err := fmt.Sscanf(x, "p2[%d]", &k); err != nil || fmt.Sprintf("p2[%d]", k) != x {
-		return x, false, "the value examined is " + x + ", not an item of the enclosing statement"
-	}
-	if !F.Has(eqAtom(fmt.Sprintf("p2[%d]", k+1), "recv"), true) {
-		return x, false, fmt.Sprintf("%s is examined without p2[%d] being known to be the group itself", x, k+1)
-	}
-	for j := 0; j <= k; j++ {
-		if !F.Has(eqAtom(fmt.Sprintf("p2[%d]", j), "recv"), false) {
-			return x, false, fmt.Sprintf("an earlier occurrence of the group (p2[%d]) is not excluded", j)
-		}
-	}
-	return x, true, "the item directly before the group's first occurrence"
+	return "", "", "no occurrence of the group within the items examined"
 }
